@@ -666,8 +666,14 @@ func (obj *DenseReal32Matrix) UnmarshalJSON(data []byte) error {
   if err := json.Unmarshal(data, &r); err != nil {
     return err
   }
+  if r.Rows < 0 || r.Cols < 0 || len(r.Values) != r.Rows*r.Cols {
+    return fmt.Errorf("invalid dense matrix: dimensions do not match the number of values")
+  }
   obj.values = nilDenseReal32Vector(len(r.Values))
   for i := 0; i < len(r.Values); i++ {
+    if r.Values[i] == nil {
+      return fmt.Errorf("invalid dense matrix: null element")
+    }
     obj.values[i] = r.Values[i]
   }
   obj.rows = r.Rows
